@@ -3,7 +3,7 @@ package main
 // Blocking channel operations: the script goroutine parks in receive / select / send; once the Go
 // runtime reports it parked (goroutine status "select"/"chan ..." in runtime.Stack, no timing
 // involved) another goroutine cancels the context.  Only the verdict "did not return" is time-based
-// (the child waits a few seconds); the Go scheduler itself is not modelled.
+// (the child waits 15 s); the Go scheduler itself is not modelled.
 
 import (
 	"encoding/json"
@@ -64,7 +64,7 @@ func runBlockJobs(w *lib.Writer, jobs []blockJob) {
 		func() {
 			j := job{Name: bj.Name}
 			_ = j
-			res, f := runRaw("blockchild", in, 60*time.Second)
+			res, f := runRaw("blockchild", in, 5*time.Minute)
 			if f != "" {
 				fail = f
 				return
@@ -171,7 +171,7 @@ func runBlock(bj blockJob) blockObs {
 	case err := <-done:
 		obs.Returned = true
 		obs.Outc, obs.Err = outcome(err, stdReason)
-	case <-time.After(4 * time.Second):
+	case <-time.After(15 * time.Second):
 		obs.Returned = false
 		obs.Outc = -1
 	}
